@@ -95,6 +95,7 @@ pub enum RK {
     AwaitJoinReq { child: usize, b: Src, m: S, fired: bool, select: bool },
     ChildReq { a: Src },
     Producer { a: Src, chan: usize },
+    JoinForward { a: Src, b: Src, chan: usize, sent: bool, got_b: bool },
     Consumer { site: S, m: S, chan: usize },
     StreamChild { a: Src },
     Aborter { b: Src, target: usize },
@@ -456,7 +457,7 @@ impl RCmd {
 
     fn release(&mut self, t: &RTask) {
         match &t.kind {
-            RK::Producer { chan, .. } => {
+            RK::Producer { chan, .. } | RK::JoinForward { chan, .. } => {
                 let c = &mut self.chans[*chan];
                 c.senders = c.senders.saturating_sub(1);
                 if c.senders == 0 {
@@ -625,6 +626,15 @@ impl RCmd {
                     let chan = self.chans.len() - 1;
                     let pr = self.insert(task(RK::Producer { a: Src::new(s), chan }));
                     self.ready.push(pr);
+                    let co = self.insert(task(RK::Consumer { site: s, m, chan }));
+                    self.ready.push(co);
+                    return Run::Finished;
+                }
+                P::JoinForward(s, u, m) => {
+                    self.chans.push(Chan { q: vec![], senders: 1, waiting: None });
+                    let chan = self.chans.len() - 1;
+                    let jf = self.insert(task(RK::JoinForward { a: Src::new(s), b: Src::new(u), chan, sent: false, got_b: false }));
+                    self.ready.push(jf);
                     let co = self.insert(task(RK::Consumer { site: s, m, chan }));
                     self.ready.push(co);
                     return Run::Finished;
@@ -964,6 +974,39 @@ impl RCmd {
                 St::G => Run::Finished,
                 _ => Run::Pending,
             },
+            RK::JoinForward { a, b, chan, sent, got_b } => {
+                // join polls its left branch (request u -> event) first, then the forwarding one
+                if b.st == St::U {
+                    cx.eff(b, Kind::Once, 0);
+                }
+                if a.st == St::U {
+                    cx.eff(a, Kind::Once, 0);
+                }
+                if let St::V(w) = b.st {
+                    if !*got_b {
+                        cx.got(b.site, w);
+                        *got_b = true;
+                    }
+                }
+                if let St::V(v) = a.st {
+                    if !*sent {
+                        *sent = true;
+                        let c = &mut self.chans[*chan];
+                        c.q.push(v);
+                        if let Some(w) = c.waiting.take() {
+                            self.enqueue(w);
+                        }
+                    }
+                }
+                if *got_b && *sent {
+                    return Run::Finished;
+                }
+                if !a.pending() && !b.pending() {
+                    // no source left that could wake it
+                    return Run::Finished;
+                }
+                Run::Pending
+            }
             RK::Consumer { site, m, chan } => {
                 let c = &mut self.chans[*chan];
                 for v in std::mem::take(&mut c.q) {
@@ -1065,7 +1108,7 @@ impl RK {
             | RK::ChainLink { a, .. } | RK::StreamHandOff { a, .. } => vec![a],
             RK::Aborter { b, .. } | RK::AwaitJoinReq { b, .. } => vec![b],
             RK::ReqReq { a, b } | RK::ReqStream { a, b, .. } | RK::StreamReq { a, b, .. } | RK::Join { a, b }
-            | RK::Select { a, b } | RK::HandOff { a, b, .. } | RK::StreamUntil { a, b } | RK::JoinSpawn { a, b, .. } => vec![a, b],
+            | RK::Select { a, b } | RK::HandOff { a, b, .. } | RK::StreamUntil { a, b } | RK::JoinSpawn { a, b, .. } | RK::JoinForward { a, b, .. } => vec![a, b],
             RK::StreamStream { a, bs, .. } => {
                 let mut v = vec![a];
                 v.extend(bs.iter_mut());
@@ -1082,7 +1125,7 @@ impl RK {
             | RK::ChainLink { a, .. } | RK::StreamHandOff { a, .. } => vec![a],
             RK::Aborter { b, .. } | RK::AwaitJoinReq { b, .. } => vec![b],
             RK::ReqReq { a, b } | RK::ReqStream { a, b, .. } | RK::StreamReq { a, b, .. } | RK::Join { a, b }
-            | RK::Select { a, b } | RK::HandOff { a, b, .. } | RK::StreamUntil { a, b } | RK::JoinSpawn { a, b, .. } => vec![a, b],
+            | RK::Select { a, b } | RK::HandOff { a, b, .. } | RK::StreamUntil { a, b } | RK::JoinSpawn { a, b, .. } | RK::JoinForward { a, b, .. } => vec![a, b],
             RK::StreamStream { a, bs, .. } => {
                 let mut v = vec![a];
                 v.extend(bs.iter());
